@@ -361,7 +361,8 @@ class C12(Profile):
     prop = "C12"
     name = "C12"
     level = "fault_enumeration"
-    weights = dict(STRUCT_WEIGHTS, refused=38, data_write=2, data_append=2, data_resize=1)
+    weights = dict(STRUCT_WEIGHTS, refused=38, data_write=2, data_append=2, data_resize=1,
+                   create_mtag=4, create_feature=4, create_block=3)
     owned = ("refusal_atomicity", "refusal_retry")
     reopen_introspect = False
     never_off = ("restart", "refused", "create_block", "create_array", "create_section")
